@@ -1,4 +1,5 @@
 pub mod c01;
+pub mod c03;
 pub mod c02;
 pub mod c10;
 pub mod c11;
@@ -18,6 +19,7 @@ pub fn get(id: &str) -> Option<&'static dyn Property> {
     match id {
         "C01" => Some(&c01::C01),
         "C02" => Some(&c02::C02),
+        "C03" => Some(&c03::C03),
         "C07" => Some(&embed::Embed(embed::Which::C07)),
         "C08" => Some(&embed::Embed(embed::Which::C08)),
         "C09" => Some(&embed::Embed(embed::Which::C09)),
@@ -35,4 +37,4 @@ pub fn get(id: &str) -> Option<&'static dyn Property> {
     }
 }
 
-pub const ALL_IDS: &[&str] = &["C01", "C02", "C07", "C08", "C09", "C10", "C11", "C12", "C13", "C15", "C17", "C21", "C23", "C35", "C39"];
+pub const ALL_IDS: &[&str] = &["C01", "C02", "C03", "C07", "C08", "C09", "C10", "C11", "C12", "C13", "C15", "C17", "C21", "C23", "C35", "C39"];
